@@ -57,6 +57,7 @@ type Args struct {
 	DeviceCode string
 	UserCode   string
 	Desc       string // printable description of the generated argument (for the replay)
+	Overlap    []string // requests of a deterministic interleaving whose answer differs from the answer they get alone
 }
 
 func class(err error) string {
@@ -202,6 +203,34 @@ var Ops = []Op{
 	{"op.DeviceAuthorization", "prov", func(w *World, in *Instance, a *Args) string {
 		return code(provReq(in, form(in.Prov.DeviceAuthorizationEndpoint().Relative(), url.Values{"scope": {"openid"}}, true)))
 	}, ""},
+	// ---- refused authorization requests (unique state per request), both routers; two refused requests in flight
+	{"op.Authorize.refused", "prov", func(w *World, in *Instance, a *Args) string {
+		ans, leak := in.Refused("provider", RefusalClasses[a.Variant%len(RefusalClasses)])
+		if len(leak) > 0 {
+			return "foreign-state:" + strings.Join(leak, "+")
+		}
+		return ans[:3]
+	}, "op.authorizeHandler$ret"},
+	{"op.LegacyServer.Authorize.refused", "prov", func(w *World, in *Instance, a *Args) string {
+		ans, leak := in.Refused("legacy", RefusalClasses[a.Variant%len(RefusalClasses)])
+		if len(leak) > 0 {
+			return "foreign-state:" + strings.Join(leak, "+")
+		}
+		return ans[:3]
+	}, "op.webServer.authorizeHandler"},
+	{"op.Authorize.refused-overlap", "prov", func(w *World, in *Instance, a *Args) string {
+		a.Overlap = in.RefusedOverlap([]string{"noscope", "resptype", "prompt"}[a.Variant%3])
+		return fmt.Sprint(len(a.Overlap))
+	}, "op.Authorize"},
+	// ---- relying party: ONE handler value per instance serves every request
+	{"rp.AuthURLHandler.shared", "rp", func(w *World, in *Instance, a *Args) string { return in.Login() }, "rp.AuthURLHandler$ret"},
+	{"rp.AuthURLHandler.overlap", "rp", func(w *World, in *Instance, a *Args) string {
+		a.Overlap = in.LoginOverlap()
+		return fmt.Sprint(len(a.Overlap))
+	}, "rp.AuthURLHandler$ret"},
+	{"rp.CodeExchangeHandler.shared", "rp", func(w *World, in *Instance, a *Args) string {
+		return in.Callback(a.Code)
+	}, "rp.CodeExchangeHandler$ret"},
 	// ---- the world's provider over real HTTP, complete flows with valid tokens
 	{"world:Exchange", "world", func(w *World, in *Instance, a *Args) string {
 		_, err := w.Tokens() // authorize -> login -> callback -> code exchange
@@ -365,6 +394,9 @@ func (o *Op) Applies(in *Instance) bool {
 // Prepare builds the arguments of an operation (outside the observed window)
 func (w *World) Prepare(o *Op, in *Instance, r *hx.Rand, needTokens bool) *Args {
 	a := &Args{Variant: r.Intn(1000)}
+	if w.ForceVariant >= 0 {
+		a.Variant = w.ForceVariant
+	}
 	defer func() {
 		if a.Desc == "" && len(a.Supplied) > 0 {
 			for _, s := range a.Supplied {
@@ -379,7 +411,7 @@ func (w *World) Prepare(o *Op, in *Instance, r *hx.Rand, needTokens bool) *Args 
 			if in == nil || in.World || in.Prov == nil {
 				a.Tok, _ = w.Tokens()
 			}
-		case "rp.CodeExchange", "rp.CodeExchangeHandler$ret":
+		case "rp.CodeExchange", "rp.CodeExchangeHandler$ret", "rp.CodeExchangeHandler.shared":
 			a.Code, _ = w.Code()
 		}
 	}
